@@ -181,9 +181,10 @@ class C01(Check):
     rule = DOC_RULE
     obligations = [("main", "C01a", "C01_ordered"), ("main", "C01b", "unpadded_pad"), ("main", "C01b", "fill_pad"),
                    ("main", "C01b", "lineCount_pad"), ("main", "C01b", "pad_app"), ("main", "L2BndS", "parseBlocks_bounds"),
-                   ("stream", "BPProof", "next_block_sim"), ("stream", "C08", "C08_stream_eq"), ("main", "Uncond", "parseStream_eq_small")]
+                   ("stream", "BPProof", "next_block_sim"), ("stream", "C08", "C08_stream_eq"), ("main", "Uncond", "parseStream_eq_small"),
+                   ("main", "Uncond", "C01_tiling"), ("main", "Tiling", "C01_tiles_prefix"), ("main", "Tiling", "C01_of_total"), ("main", "Tiling", "C01_iff_rest_blank")]
     assumptions = ["aliasing of Source with the caller's buffer and non-modification of the buffer are memory facts: observed on the implementation by the oracle (pointer comparison, copy comparison), not proved",
-                   "proved for every input: source order and disjointness (C01_ordered), ends bounded by the line read (parseBlocks_bounds), padding bookkeeping; gap bytes blank and line-boundary ends are decided by the correspondence plus the oracle on sampled inputs"]
+                   "proved for every input (Uncond.C01_tiling = Props.C01_statement: the root blocks of parseBlocks tile the input: ordered, disjoint, inside the input, every gap and the rest after the last block blank, Source = the input range with each NUL replaced by U+FFFD, StartLine = 1 + number of line endings before the start with CRLF counted once, EndOffset - StartOffset = len Source when the input has no NUL); the same for the streaming entry point by parseStream_eq_small; the tie to parse.go is the correspondence of root-block headers through both entry points and the tiling oracle"]
 
     def jobs(self, seed, tier):
         cases = [(d, "") for d in docs(seed, tier, bad=0.1)]
@@ -215,7 +216,7 @@ class C02(TreeCheck):
     obligations = [("main", "L2BndS", "parseBlocks_bounds"), ("main", "C01a", "C01_ordered"), ("main", "NoPanicAll", "parseBlocks_no_panic"),
                    ("main", "BlockSpans", "parseBlocks_block_spans"), ("main", "BlockSpans", "parseFull_block_spans"),
                    ("main", "InlineSpans", "parseInlines_spans"), ("main", "InlineSpans", "parseInlines_spans_reduction"), ("main", "InlineSpans", "parseInlines_spans_literal_false"),
-                   ("main", "SpanHyp", "entriesOKX_eq"), ("main", "SpanHyp", "rewrite_roots_inline_spans"), ("main", "Total", "parseBlocks_total")]
+                   ("main", "SpanHyp", "entriesOKX_eq"), ("main", "SpanHyp", "rewrite_roots_inline_spans"), ("main", "EntriesOK", "parseBlocks_entries_basic"), ("main", "Total", "parseBlocks_total")]
     proj = staticmethod(proj_spans)
     what = "span structure"
 
@@ -246,7 +247,7 @@ reg(C03("C03"))
 
 
 class C05(TreeCheck):
-    obligations = [("main", "GramInline", "parseFull_gramI_partial"), ("main", "GramInline", "parseFull_noLinkInLink"), ("main", "GramInline", "parseFull_kinds"), ("main", "GramInline", "parseFull_gramI_titleDest_partial"), ("main", "GIB", "parseBlocks_noMixed"), ("main", "TieKinds", "tie_kinds"), ("main", "L2CCfull", "parseFull_contain"), ("main", "L2Kind2", "parseBlocks_kinds"), ("main", "NoUnpFull", "C05_noUnparsed"),
+    obligations = [("main", "InlineFuel", "C04_gramI_doc"), ("main", "InlineFuel", "C04_titleNeedsDest"), ("main", "GramInline", "parseFull_gramI_partial"), ("main", "GramInline", "parseFull_noLinkInLink"), ("main", "GramInline", "parseFull_kinds"), ("main", "GramInline", "parseFull_gramI_titleDest_partial"), ("main", "GIB", "parseBlocks_noMixed"), ("main", "TieKinds", "tie_kinds"), ("main", "L2CCfull", "parseFull_contain"), ("main", "L2Kind2", "parseBlocks_kinds"), ("main", "NoUnpFull", "C05_noUnparsed"),
                    ("main", "Clos12full", "C12_closure"), ("main", "Rec16", "ordered_number_range"),
                    ("main", "GramBlocks", "parseBlocks_gramBlocks"), ("main", "GramBlocks", "parseFull_gramBlocks")]
     proj = staticmethod(proj_kinds)
@@ -264,11 +265,23 @@ reg(C05("C05"))
 
 
 class C13(TreeCheck):
-    obligations = [("main", "BlockShapes", "parseBlocks_block_shapes_partial"), ("main", "BlockShapes", "parseFull_block_shapes_partial"), ("main", "BlockShapes", "parseFull_block_shapes_prefill_partial"), ("main", "BlockShapesNul", "parseFull_block_shapes_aligned_partial"), ("main", "ShapesCS", "parseCodeSpan_shape"), ("main", "ShapesA", "parseAutolink_shape"), ("main", "ShapesA", "parseCharacterEscape_shape"), ("main", "ShapesA", "parseHardLineBreakSpace_hard_iff"), ("main", "ShapesHT", "parseHTMLTag_shape"), ("main", "ShapesA", "parseDelimiterRun_shape"), ("main", "ShapesComp3", "parseInlines_codespan_shapes_partial"), ("main", "Shapes", "hardbreak_line_shape"), ("main", "Shapes", "codespan_shapes_statement_false"), ("main", "Rec16", "parseListMarker_sound"), ("main", "Rec17", "parseCodeFence_sound"), ("recog", "ATXProof", "parseATXHeading_correct"),
+    obligations = [("main", "BlockShapes", "parseBlocks_block_shapes_partial"), ("main", "BlockShapes", "parseFull_block_shapes_partial"), ("main", "BlockShapes", "parseFull_block_shapes_prefill_partial"), ("main", "BlockShapesNul", "parseFull_block_shapes_aligned_partial"), ("main", "ShapesCS", "parseCodeSpan_shape"), ("main", "ShapesA", "parseAutolink_shape"), ("main", "ShapesA", "parseCharacterEscape_shape"), ("main", "ShapesA", "parseHardLineBreakSpace_hard_iff"), ("main", "ShapesHT", "parseHTMLTag_shape"), ("main", "ShapesA", "parseDelimiterRun_shape"), ("main", "ShapesComp3", "parseInlines_codespan_shapes_partial"), ("main", "InlineShapes", "parseInlines_shapes"), ("main", "ShapeHyp", "bikOKX'_eq"), ("main", "ShapeHyp", "rewrite_roots_inline_shapes"),
+                   ("main", "EntriesOK", "parseBlocks_entries_ok_partial"), ("main", "EntriesOK", "parseFull_codespan_shapes"), ("main", "EntDefs", "parseBlocks_entries_ok_statement_false"), ("main", "Shapes", "hardbreak_line_shape"), ("main", "Shapes", "codespan_shapes_statement_false"), ("main", "Rec16", "parseListMarker_sound"), ("main", "Rec17", "parseCodeFence_sound"), ("recog", "ATXProof", "parseATXHeading_correct"),
                    ("main", "Rec15", "parseSetext_correct")]
     proj = staticmethod(proj_kindspans)
     what = "(kind, span) of every node"
-    assumptions = ["block level: for every input without NUL bytes, every block node of every root has a valid span and the shape of its construct (list marker = bullet or 1-9 digits + '.'/')'; ATX heading starts with exactly its level of '#'; setext heading ends in its underline character; fenced code starts with its fence; block quote starts with '>') (parseFull_block_shapes_partial); for every input the same holds of the root's text before NUL filling (…_prefill_partial) and of the Source itself whenever the cut positions do not split a padded NUL (…_aligned_partial); that alignment for inputs with NUL is the open obligation shared with C01", "partial: scanner-level shape theorems for every kind of leaf-like construct (parseCodeSpan_shape: equal backtick runs; parseAutolink_shape, parseHTMLTag_shape: '<...>'; parseCharacterEscape_shape: '&...;'; parseHardLineBreakSpace_hard_iff; parseDelimiterRun_shape: copies of one of * or _) and, end to end through the whole inline parser, every CodeSpanKind node of parseInlines has the code-span shape for containers satisfying the executable condition bikOK (parseInlines_codespan_shapes_partial; without a condition the statement is false for arbitrary entry lists, witness proved); the recognizer theorems give the shape at creation for list markers, fences, ATX and setext lines; transport of the remaining shapes through the parser is decided by the correspondence, the shape oracle and the formal statement evaluated on the implementation's trees"]
+    assumptions = ["block level: for every input without NUL bytes, every block node of every root has a valid span and the shape of its construct (list marker = bullet or 1-9 digits + '.'/')'; ATX heading starts with exactly its level of '#'; setext heading ends in its underline character; fenced code starts with its fence; block quote starts with '>') (parseFull_block_shapes_partial); for every input the same holds of the root's text before NUL filling (…_prefill_partial) and of the Source itself whenever the cut positions do not split a padded NUL (…_aligned_partial); that alignment for inputs with NUL is the open obligation shared with C01", "partial: scanner-level shape theorems for every kind of leaf-like construct (parseCodeSpan_shape: equal backtick runs; parseAutolink_shape, parseHTMLTag_shape: '<...>'; parseCharacterEscape_shape: '&...;'; parseHardLineBreakSpace_hard_iff; parseDelimiterRun_shape: copies of one of * or _) and, end to end through the whole inline parser, every CodeSpanKind node of parseInlines has the code-span shape for containers satisfying the executable condition bikOK (parseInlines_codespan_shapes_partial; without a condition the statement is false for arbitrary entry lists, witness proved); the recognizer theorems give the shape at creation for list markers, fences, ATX and setext lines", "inline level, all kinds and depths: for every leaf block whose entries satisfy the executable condition bikOK' (bikOK, childless Unparsed/RawHTML/Indent entries, line-ending bytes only as a suffix of each entry), every inline node of parseInlines has a valid span and the shape of its construct (InlineShapes.parseInlines_shapes = Props.shapesI; lifted to root blocks in ShapeHyp.rewrite_roots_inline_shapes); the run evaluates that condition on the implementation's own pre-inline trees; bikOK itself is proved of the block layer's output for every input except the empty entry of a content-less ATX heading (EntriesOK.parseBlocks_entries_ok_partial; the unrestricted statement is false, witness '#' proved), and code-span shapes are proved for every input outright (EntriesOK.parseFull_codespan_shapes); that the block layer always establishes the other two clauses of bikOK' is not yet proved"]
+
+    def jobs(self, seed, tier):
+        js = TreeCheck.jobs(self, seed, tier)
+
+        def hyp(cases):
+            a = run.harness("blocks", lines_of(cases))
+            b = run.model("shapehyp", [strip_refs(x) for x in a])
+            return [(i, a[i][:500], b[i], "hypothesis shapeHypRoots of ShapeHyp.rewrite_roots_inline_shapes on the implementation's pre-inline tree")
+                    for i in range(len(a)) if is_obs(a[i]) and b[i] != "1"]
+        js.append(Job("entry conditions of the inline-shape theorem on the implementation's pre-inline trees", js[0].cases, corr=hyp))
+        return js
 
 
 reg(C13("C13"))
@@ -291,7 +304,7 @@ def hostile(seed, n):
 
 class C04(Check):
     rule = DOC_RULE + "; plus hostile inputs: nesting hundreds deep, every construct left unterminated at end of input, invalid UTF-8, NUL and CR runs"
-    obligations = [("main", "Uncond", "C04_block_layer_total"), ("main", "Total", "parseBlocks_total"), ("main", "NoPanicAll", "parseBlocks_no_panic"), ("main", "RecBounds", "atx_bounds"), ("main", "CursorX", "consume_all"),
+    obligations = [("main", "InlineFuel", "C04_parseInlines_all_fuels"), ("main", "InlineFuel", "C04_parseInlines_fuel_independent"), ("main", "InlineFuel", "C04_processEmphasis_adequate"), ("main", "InlineFuel", "C04_parseInlines_all_fuels_empty"), ("main", "EntriesOK", "parseBlocks_entries_ok_partial"), ("main", "Uncond", "C04_block_layer_total"), ("main", "Total", "parseBlocks_total"), ("main", "NoPanicAll", "parseBlocks_no_panic"), ("main", "RecBounds", "atx_bounds"), ("main", "CursorX", "consume_all"),
                    ("walk", "W2P", "run_refines_spec"), ("stream", "ReaderProof", "readline_sim"), ("misc", "Sticky", "C20_healthy")]
     assumptions = ["partial: proved: the block layer is total for every input (Total.parseBlocks_total: parseBlocks never reports a panic site and never runs out of any of its fuels: outer loop, line loop, descendOpenBlocks, openNewBlocks, codePoint reader), Walk terminates with fuel 2*size+1, readline terminates under any schedule, the renderer/formatter models are total by construction; fuel sufficiency of the inline parser is observed (the model never reports a fuel code on any case) rather than proved",
                    "'does not loop forever' on the implementation is a 20 s watchdog per case"]
@@ -579,7 +592,7 @@ def order_docs(seed, n):
 
 class C12(Check):
     rule = "label pairs over atoms with multi-character folds, final sigma, Kelvin sign, dotted I, no-break and em spaces, tabs/line endings, escaped brackets, in four placements (expected match computed by an independent normaliser: whitespace collapse + str.casefold); competing definitions in random orders and containers; the general document stream for the closure clause"
-    obligations = [("main", "TieInline", "tie_inline"), ("main", "Clos12full", "C12_closure"), ("main", "Refs12", "extract_is_fold"), ("main", "Refs12", "first_wins_first"), ("main", "Refs12", "first_wins_stable"),
+    obligations = [("main", "TieInline", "tie_inline"), ("main", "Clos12full", "C12_closure"), ("main", "Refs12", "extract_is_fold"), ("main", "Refs12", "first_wins_first"), ("main", "Refs12", "first_wins_stable"), ("main", "RefSliceMain", "C12_refslice"), ("main", "RefSliceMain", "C12_refslice_resolves"), ("main", "RefSliceMain", "C12_refslice_unresolved"),
                    ("main", "Clos12", "parseInlines_closed"),
                    ("main", "LabelNorm", "label_norm_single"), ("main", "LabelNorm", "collapse_idempotent"), ("main", "LabelNorm", "trim_collapse_idempotent"),
                    ("main", "LabelNormAdj", "label_norm_adjacent")]
@@ -916,7 +929,7 @@ reg(C18("C18"))
 class C06(Check):
     level = "other"
     rule = "abstract documents (paragraphs, ATX/setext headings, thematic breaks, fenced/indented code, block quotes, tight/loose bullet and ordered lists nested to depth 3, HTML blocks, definitions; text, escapes, entities, emphasis, code spans, inline/reference links, images, autolinks, raw tags, hard and soft breaks) serialised with random choices of marker characters, fence lengths, indentation widths, LF/CRLF and escaping style; expected HTML from the generator's own denotation; distinct by serialisation"
-    obligations = [("main", "SliceText", "C06_escaped_text"), ("main", "SliceCode", "C06_code_verbatim"), ("main", "SliceText", "C06_escaped_text_any_cfg"), ("main", "SliceCode", "C06_code_verbatim_any_cfg"), ("main", "C07final", "C07_final"), ("main", "RenderWalkProof", "C10_appendBlock"), ("recog", "ATXProof", "parseATXHeading_correct"), ("main", "Rec17", "parseCodeFence_sound")]
+    obligations = [("main", "EmphRender", "C06_emphasis_slice"), ("main", "EmphRender", "C06_slices"), ("main", "RefSliceMain", "C12_refslice"), ("main", "SliceText", "C06_escaped_text"), ("main", "SliceCode", "C06_code_verbatim"), ("main", "SliceText", "C06_escaped_text_any_cfg"), ("main", "SliceCode", "C06_code_verbatim_any_cfg"), ("main", "C07final", "C07_final"), ("main", "RenderWalkProof", "C10_appendBlock"), ("recog", "ATXProof", "parseATXHeading_correct"), ("main", "Rec17", "parseCodeFence_sound")]
     assumptions = ["the two clauses the property singles out are proved on the model for inputs of any length: C06_escaped_text (a one-line paragraph of letters, digits, single spaces and backslash-escaped ASCII punctuation renders to exactly that text, HTML-escaped) and C06_code_verbatim (a backtick-fenced block whose fence is longer than any backtick run at the start of a line renders its lines verbatim, HTML-escaped), for every configuration without tag filter", "the whole-pipeline statement (render (parse (serialize d)) = denote d) is not proved; supporting theorems (recognizers = definitions, renderer = structural reading) are machine-checked; the property is decided by the oracle comparing the implementation's HTML with the generator's denotation, and by the model/implementation correspondence on the same serialisations",
                    "the abstract-document generator and its denotation (lib/docgen.py) are trusted to follow the CommonMark 0.30 text"]
 
